@@ -4,6 +4,8 @@ CONSTANTS
   Emit = FALSE
   FixPrefix = TRUE
   FixSourceFilter = TRUE
+  FixBoundaryMoves = TRUE
+  FixSchemaRename = TRUE
 VIEW View
 INVARIANT Explained
 ACTION_CONSTRAINT EmitReplay
